@@ -83,7 +83,10 @@ struct Agg {
 
 impl Agg {
     /// the chunk line: everything up to (excluding) `upto` is accounted for
-    fn line(&mut self, upto: usize) -> String {
+    fn line(&mut self, upto: usize, noids: bool) -> String {
+        if noids {
+            self.pass.truncate(2);
+        }
         let l = json!({"c": upto, "err": self.err, "err2": self.err2, "acc": self.acc, "pass": self.pass, "maxus": self.maxus, "maxi": self.maxi}).to_string();
         *self = Agg::default();
         l
@@ -105,6 +108,7 @@ fn worker_main(args: &[String]) -> ! {
     let lo: usize = args.get(3).and_then(|s| s.parse().ok()).unwrap_or(0);
     let hi: usize = args.get(4).and_then(|s| s.parse().ok()).unwrap_or(0);
     let trace = args.iter().any(|a| a == "--trace");
+    let noids = args.iter().any(|a| a == "--noids");
     if args.iter().any(|a| a == "--show") || args.first().map(|s| s == "--doc").unwrap_or(false) {
         seams::SHOW.store(true, Ordering::Relaxed);
     }
@@ -149,11 +153,11 @@ fn worker_main(args: &[String]) -> ! {
             let fam: Fam = match &probe {
                 Some((shape, _)) if shape == "hand" => {
                     let input = hand.clone().unwrap();
-                    Fam { name: "hand".into(), group: "x", len: 1, mode: Mode::Trace, judged: true, shard: 1, expect_pass: false, must_pass: vec![], make: Box::new(move |_| input.clone()) }
+                    Fam { name: "hand".into(), group: "x", len: 1, mode: Mode::Trace, judged: true, shard: 1, expect_pass: false, must_pass: vec![], distinct: false, make: Box::new(move |_| input.clone()) }
                 }
                 Some((shape, n)) => {
                     let (shape, n) = (shape.clone(), *n);
-                    Fam { name: format!("nest/{shape}"), group: "b", len: 1, mode: Mode::Trace, judged: true, shard: 1, expect_pass: false, must_pass: vec![], make: Box::new(move |_| gen::shape_input(&shape, n)) }
+                    Fam { name: format!("nest/{shape}"), group: "b", len: 1, mode: Mode::Trace, judged: true, shard: 1, expect_pass: false, must_pass: vec![], distinct: false, make: Box::new(move |_| gen::shape_input(&shape, n)) }
                 }
                 None => gen::family(&fam_name, thorough).unwrap_or_else(|| {
                     eprintln!("unknown family {fam_name}");
@@ -227,7 +231,7 @@ fn worker_main(args: &[String]) -> ! {
                 }
                 in_chunk += 1;
                 if trace || in_chunk == CHUNK || idx + 1 == hi {
-                    let l = p2.agg.lock().unwrap().line(idx + 1);
+                    let l = p2.agg.lock().unwrap().line(idx + 1, noids);
                     let mut o = out.lock();
                     let _ = writeln!(o, "{l}");
                     let _ = o.flush();
@@ -269,7 +273,7 @@ fn worker_main(args: &[String]) -> ! {
             let out = std::io::stdout();
             let mut o = out.lock();
             // everything before the culprit is accounted for
-            let l = prog.agg.lock().unwrap_or_else(|e| e.into_inner()).line(cur);
+            let l = prog.agg.lock().unwrap_or_else(|e| e.into_inner()).line(cur, noids);
             let _ = writeln!(o, "{l}");
             let _ = writeln!(o, "{}", json!({"i": cur, "o": "budget", "why": if cpu > CPU_BUDGET_S { "cpu" } else { "wall" }, "us": (wall * 1e6) as u64}));
             let _ = o.flush();
@@ -300,6 +304,7 @@ struct FamStats {
     budget: u64,
     crashes: u64,
     children: u64,
+    child_ms: u64,
     maxus: u64,
     maxi: usize,
     bad: Vec<(usize, Bad)>,
@@ -316,6 +321,7 @@ struct ChildResult {
 }
 
 fn spawn_worker(exe: &std::path::Path, args: &[String], from: usize, st: &mut FamStats) -> Result<ChildResult, String> {
+    let t_spawn = std::time::Instant::now();
     let mut child = Command::new(exe).args(args).stdin(Stdio::null()).stdout(Stdio::piped()).stderr(Stdio::piped()).spawn().map_err(|e| format!("cannot spawn worker: {e}"))?;
     st.children += 1;
     let stdout = child.stdout.take().unwrap();
@@ -376,6 +382,7 @@ fn spawn_worker(exe: &std::path::Path, args: &[String], from: usize, st: &mut Fa
         }
     }
     let status = child.wait().map_err(|e| format!("wait: {e}"))?;
+    st.child_ms += t_spawn.elapsed().as_millis() as u64;
     let stderr_tail = err_thread.join().unwrap_or_default();
     use std::os::unix::process::ExitStatusExt;
     let exit = match (status.code(), status.signal()) {
@@ -403,6 +410,9 @@ fn run_shard(exe: &std::path::Path, fam: &Fam, tier: &str, lo: usize, hi: usize)
         let mut args: Vec<String> = vec!["--worker".into(), fam.name.clone(), tier.into(), from.to_string(), to.to_string()];
         if trace {
             args.push("--trace".into());
+        }
+        if fam.distinct {
+            args.push("--noids".into());
         }
         let r = spawn_worker(exe, &args, from, &mut st)?;
         match r.exit {
@@ -452,6 +462,7 @@ fn merge(a: &mut FamStats, b: FamStats) {
     a.budget += b.budget;
     a.crashes += b.crashes;
     a.children += b.children;
+    a.child_ms += b.child_ms;
     if b.maxus > a.maxus {
         a.maxus = b.maxus;
         a.maxi = b.maxi;
@@ -479,17 +490,18 @@ fn family_key(name: &str) -> String {
 pub fn run(cx: &Cx) {
     let thorough = !cx.quick();
     let tier = if thorough { "thorough" } else { "quick" };
-    cx.rule(
+    let n_shapes = gen::SHAPES.iter().filter(|s| s.judged).count();
+    cx.rule(&format!(
         "case = one client input pushed through one seam of the real code inside a child process, on a worker thread with a 2 MiB stack. Families: (a) every token string of length <= 4 (quick) / 5 (thorough) over 18 GraphQL tokens, \
          and every single-token edit (thorough: also every pair of delete/substitute edits) of 4 exemplar documents over a 34-token alphabet, through Schema::execute on the strict and the fast-validation schema; \
-         (b) 61 nesting/size shapes (recursive productions, unclosed brackets, long strings/comments/names/numbers, wide lists/objects, aliases, directive/argument/variable/operation/fragment chains and cycles; the same in JSON variables, \
+         (b) {n_shapes} nesting/size shapes (recursive productions, unclosed brackets, long strings/comments/names/numbers, wide lists/objects, aliases, directive/argument/variable/operation/fragment chains and cycles; the same in JSON variables, \
          extensions, batches, query strings, WebSocket payloads and multipart operations/map/paths) at sizes 2^k, k <= 16 (quick) / 18 (thorough) (smaller caps where the work is polynomial, see per-shape ladder), plus every depth 1..130 of six JSON placements; \
          (c) every JSON value of depth <= 2 over 15 atoms and 13 wrappers as variable and as literal for 17 typed arguments (every built-in input type incl. Upload, oneOf, recursive input object, MaybeUndefined, JSON, Any), in query and mutation, strict and fast; \
-         (d) operationName values x documents and request extensions shapes (persistedQuery with wrong types) on the strict/fast/persisted-queries schemas; (e) every query string of <= 5 (quick) / 6 (thorough) pieces over 12 pieces through parse_query_string; \
+         (d) operationName values x documents and request extensions shapes (persistedQuery with wrong types) on the strict/fast/persisted-queries schemas; (e) every query string of <= 6 (quick) / 7 (thorough) pieces over 12 pieces through parse_query_string; \
          (f) every prefix and every one-byte deletion of 4 JSON and 3 multipart exemplar bodies, read whole and split (quick: the intact body at every single split, mutants at one split; thorough: every pair / every single split), multipart under 4 limit settings, \
          and 2900+ `map` shapes x 5 operations shapes; (g) WebSocket sessions: every message sequence of length <= 2 (quick) / 3 (thorough) over a 39-message alphabet and every truncation of the 13 valid messages in 3 contexts, both protocols, client closing or staying silent. \
-         Non-trivial = the input got past the first decoder it meets (decoded and executed; for document seams: executed without errors).",
-    );
+         Non-trivial = the input got past the first decoder it meets (decoded and executed; for document seams: executed without errors)."
+    ));
     cx.assume("stack size 2 MiB (std default for spawned threads, the usual server worker); profile agv = release-like codegen (opt-level 2, no debug assertions): stack-depth thresholds depend on both");
     cx.assume("hang detection: 20 s of process CPU time per input (300 s wall) (robust against machine load), 1e6 polls of one future, 10^4 polls of one WebSocket, 20 s parked without a wake-up; timing is recorded, not judged otherwise");
     cx.assume("which inputs are answered with an error and which are accepted is not judged (other properties do); only panics, process deaths and exhausted budgets are violations");
@@ -555,9 +567,13 @@ pub fn run(cx: &Cx) {
         g.0 += st.inputs;
         g.1 += st.err2 + st.acc;
         if f.judged {
-            for id in &st.pass_ids {
-                // identity = the seam and the input itself (two enumerations may produce the same text)
-                cx.nontrivial(agv_engine::hstr(&format!("{:?}", (f.make)(*id).seam)));
+            if f.distinct {
+                cx.nontrivial_count(st.err2 + st.acc);
+            } else {
+                for id in &st.pass_ids {
+                    // identity = the seam and the input itself (two enumerations may produce the same text)
+                    cx.nontrivial(agv_engine::hstr(&format!("{:?}", (f.make)(*id).seam)));
+                }
             }
             for m in &f.must_pass {
                 if !st.pass_ids.contains(m) {
@@ -609,7 +625,7 @@ pub fn run(cx: &Cx) {
         }
         per_family.insert(
             f.name.clone(),
-            json!({"inputs": st.inputs, "rejected": st.err, "decoded_then_error": st.err2, "accepted": st.acc, "panics": st.panics, "budget_exhausted": st.budget, "process_deaths": st.crashes, "child_processes": st.children,
+            json!({"inputs": st.inputs, "rejected": st.err, "decoded_then_error": st.err2, "accepted": st.acc, "panics": st.panics, "budget_exhausted": st.budget, "process_deaths": st.crashes, "child_processes": st.children, "child_wall_s": (st.child_ms as f64 / 100.0).round() / 10.0,
                    "slowest_input_ms": (st.maxus as f64 / 100.0).round() / 10.0, "slowest_idx": st.maxi, "judged": f.judged}),
         );
     }
@@ -643,6 +659,7 @@ pub fn run(cx: &Cx) {
                     seams::Seam::Doc { query, .. } => query.len(),
                     seams::Seam::Req { body, .. } => body.len(),
                     seams::Seam::Qs(q) => q.len(),
+                    seams::Seam::Parse(q) => q.len(),
                     seams::Seam::Mp { body, .. } => body.len(),
                     seams::Seam::Ws { msgs, .. } => msgs.iter().map(|m| m.len()).sum(),
                     _ => 0,
@@ -666,7 +683,7 @@ pub fn run(cx: &Cx) {
     cx.extra("panic_sites", json!(sites));
     cx.extra("observed_defect_classes(class -> family -> inputs)", json!(by_class_family));
     cx.extra("not_client_reachable(recorded, not judged)", Value::Object(unjudged));
-    cx.extra("bounds", json!({"token_string_length": if thorough { 5 } else { 4 }, "query_string_pieces": if thorough { 6 } else { 5 }, "websocket_session_length": if thorough { 3 } else { 2 }, "nesting_size_max": if thorough { 1u64 << 18 } else { 1u64 << 16 }, "stack_bytes": STACK_BYTES, "cpu_budget_s": CPU_BUDGET_S, "parallel_children": par}));
+    cx.extra("bounds", json!({"token_string_length": if thorough { 5 } else { 4 }, "query_string_pieces": if thorough { 7 } else { 6 }, "websocket_session_length": if thorough { 3 } else { 2 }, "nesting_size_max": if thorough { 1u64 << 18 } else { 1u64 << 16 }, "stack_bytes": STACK_BYTES, "cpu_budget_s": CPU_BUDGET_S, "parallel_children": par}));
     cx.exhaustive(true);
 }
 
